@@ -830,7 +830,7 @@ func finals(rs []*strict.Response) []*strict.Response {
 }
 
 // svSeen counts what the oracles actually got to see (one engine run per process).
-var svSeen struct{ handler, class int }
+var svSeen struct{ handler, class, repeat int }
 
 func runSurvive(e *ev.Env) {
 	setup(e)
@@ -949,7 +949,68 @@ func runSurvive(e *ev.Env) {
 		surviveCase(e, c, o, reqs, raw, mutated, ops)
 	})
 
+	// -------- the same request again after many others --------------------------------------
+	// What the server writes (and allocates) for a request is a matter of that request, not of
+	// how many requests it served before: serve one request, then the same request 200 times on
+	// the same server, then once more - the last answer must be as long as the first.
+	repeat := func(c *ev.Case, o appOpts, raw []byte) {
+		app := buildSinkApp(o)
+		w := drive.NewWire(app)
+		var first, last []byte
+		many := bytes.Repeat(raw, 200)
+		if guard(e, c, "survive", hexOf(raw), func() {
+			first, _ = w.Serve(raw, nil)
+			_, _ = w.Serve(many, nil)
+			last, _ = w.Serve(raw, nil)
+		}) {
+			return
+		}
+		e.Eval(1)
+		e.Stat("repeat_cases", 1)
+		if len(first) == 0 || bytes.Contains(first, []byte("Connection: close")) {
+			return // the pipelined copies were not served: nothing to compare
+		}
+		svSeen.repeat++
+		if len(first) != len(last) {
+			e.Violation(c, "history|response-size-changes-with-requests-served", "the answer to the same request is "+itoa(len(first))+" bytes on a fresh server and "+
+				itoa(len(last))+" bytes after 200 more requests", map[string]any{"config": cfgNames[o.kind], "input": show(raw), "first": show(first), "last": show(last)})
+		}
+	}
+	for op := 0; op < nOps; op++ {
+		op := op
+		e.Corpus("repeat-op-"+itoa(op), func(c *ev.Case) {
+			repeat(c, appOpts{}, get("/ks?rid=rep&op="+itoa(op)+"&name=x"))
+		})
+	}
+	e.Cases("repeat", e.N(320, 8000), func(c *ev.Case) {
+		r := c.R
+		o := appOpts{kind: r.Intn(nCfg), ipValidation: r.Bool(), trustProxy: r.Bool()}
+		g := &genCtx{r: r, methods: o.methods(), rbuf: o.readBuf(), blimit: o.bodyLimit(), maxHdr: o.readBuf() - 120}
+		if o.kind == cfgBodyLimit {
+			g.maxBody = 900
+		}
+		q := g.request("rep")
+		q.Hdr = append(q.Hdr, hf{"Connection", "keep-alive"})
+		for i := range q.Hdr {
+			if strings.EqualFold(q.Hdr[i].K, "Connection") {
+				q.Hdr[i].V = "keep-alive"
+			}
+			if strings.EqualFold(q.Hdr[i].K, "Expect") {
+				q.Hdr[i].K = "X-Expect"
+			}
+		}
+		q.Proto = "HTTP/1.1"
+		raw := q.bytes(r)
+		if q.has("inflate-bomb") || fatalCandidate(raw) {
+			return // 200 copies of an expensive request only cost time
+		}
+		repeat(c, o, raw)
+	})
+
 	if e.Only == "" {
+		if svSeen.repeat == 0 {
+			e.Inconclusive("no request was compared with itself after 200 more requests")
+		}
 		if svSeen.handler == 0 {
 			e.Inconclusive("no generated request reached the kitchen-sink handler in this shard")
 		}
